@@ -1,4 +1,4 @@
-\* code: two memory databases created in one clock tick share one slot range entry -- must violate AckedRowsDurable
+\* the code BEFORE the repair of memdb.NewMemoryDatabase (fixed: XFAMILY-F1): two memory databases created in one clock tick share one slot range entry -- must violate AckedRowsDurable
 CONSTANTS
   Leader = {1}
   MaxRow = 2
